@@ -23,6 +23,7 @@ the repaired code and `C15_wred_between_*` hold for every call site:
 -/
 import HermesProofs.SoilParamsGw
 import HermesProofs.SoilParamsPtf
+import HermesProofs.Ptf4Cert
 namespace Hermes.SoilParams
 
 /-! ### explicit values -/
@@ -261,22 +262,18 @@ theorem C15_ptf1_ordered (c ton sluf : ℚ) (hc0 : 0 ≤ c) (hc6 : c ≤ 6) (ht 
 example : 0 < (ptf1 (0 : ℚ) 58 37).2 ∧ (ptf1 (0 : ℚ) 58 37).2 < (ptf1 (0 : ℚ) 58 37).1 ∧ (ptf1 (0 : ℚ) 58 37).1 < 1 :=
   C15_ptf1_ordered 0 58 37 (by norm_num) (by norm_num) (by norm_num) (by norm_num) (by norm_num)
 
-/-- PTF4 (Rawls 2003, a cubic in three variables, transcribed with the `*` of input.go:1142):
-`partial` — ENUMERATION, not a proof over the continuous domain: 0 < WP < FC < 1 at every point of the
-grid clay 5, 10, …, 90 %, sand 5, 10, …, 85 % with clay + sand ≤ 95 % (silt ≥ 5 %), C_org 0, 1, …, 6 %
-(1 045 points, evaluated exactly by the kernel).  What remains: the points between the grid nodes; the
-check enumerates the 1 % grid × C_org in steps of 0.5 (thorough tier) and random real triples on the
-implementation (minimum FC − WP found: 0.0087 at clay 10, sand 85, C_org 0).  An interval-subdivision
-certificate needs about 7 800 box evaluations of the polynomial, which is beyond the kernel budget
-of this build. -/
-theorem C15_ptf4_ordered_partial (ci ti si : Nat) (hc : ci ≤ 6) (ht : ti ≤ 17) (hs : si ≤ 16)
-    (hsilt : (5 + 5 * ti) + (5 + 5 * si) ≤ 95) :
-    0 < (ptf4 (ci : ℚ) ((5 + 5 * ti : Nat) : ℚ) ((5 + 5 * si : Nat) : ℚ)).2 ∧
-    (ptf4 (ci : ℚ) ((5 + 5 * ti : Nat) : ℚ) ((5 + 5 * si : Nat) : ℚ)).2 <
-      (ptf4 (ci : ℚ) ((5 + 5 * ti : Nat) : ℚ) ((5 + 5 * si : Nat) : ℚ)).1 ∧
-    (ptf4 (ci : ℚ) ((5 + 5 * ti : Nat) : ℚ) ((5 + 5 * si : Nat) : ℚ)).1 < 1 :=
-  ptf4_grid ci ti si hc ht hs hsilt
+/-- PTF4 (Rawls et al. 2003; a polynomial of degree 5 in three variables, transcribed with the `*` of
+input.go PTF4 where the published regression has `+`) on its whole CONTINUOUS domain — C_org 0…6 %,
+clay 5…90 %, sand 5…85 %, silt = 100 − clay − sand ≥ 5 %: 0 < WP < FC < 1.  Proved by a verified
+interval-subdivision certificate (HermesProofs/Ptf4Cert.lean: centred forms tied to the model's polynomials
+by `ring`, interval soundness proved once for reflected expressions, the adaptive subdivision run evaluated
+by the kernel).  The minimum of FC − WP is 0.0087 at clay 10, sand 85, C_org 0. -/
+theorem C15_ptf4_ordered (c ton ssand : ℚ) (hc0 : 0 ≤ c) (hc6 : c ≤ 6) (ht : 5 ≤ ton) (hs : 5 ≤ ssand)
+    (hs85 : ssand ≤ 85) (hsilt : 5 ≤ 100 - ton - ssand) :
+    0 < (ptf4 c ton ssand).2 ∧ (ptf4 c ton ssand).2 < (ptf4 c ton ssand).1 ∧ (ptf4 c ton ssand).1 < 1 :=
+  ptf4_ordered c ton ssand hc0 hc6 ht hs hs85 (by linarith)
 
-example : (5 + 5 * 1) + (5 + 5 * 16) ≤ 95 := by decide
+example : 0 < (ptf4 (0 : ℚ) 10 85).2 ∧ (ptf4 (0 : ℚ) 10 85).2 < (ptf4 (0 : ℚ) 10 85).1 ∧ (ptf4 (0 : ℚ) 10 85).1 < 1 :=
+  C15_ptf4_ordered 0 10 85 (by norm_num) (by norm_num) (by norm_num) (by norm_num) (by norm_num) (by norm_num)
 
 end Hermes.SoilParams
